@@ -17,7 +17,7 @@ LEVEL_NOTE = "Trusted: virtual clock, probes attached from /verif (wait_for_next
 DESIGN_REF = "§5 C31"
 RULE = "case = (program, cancel point k) or (program, timeout T); distinct = hash of (program, fault); non-trivial = fault lands while the run is unfinished"
 REQUIRED_REACH = ["cancel_point", "cancelled_run", "cancel_after_finish", "timeout_case", "timed_out_run", "timeout_after_finish", "resume_after_cancel",
-                  "active_steps_eval", "active_steps_nonempty", "reserialize_after_resume"]
+                  "active_steps_eval", "active_steps_nonempty", "reserialize_after_resume", "deadline_inside_blocked_stretch", "stop_returned_before_deadline_loop_regained_after"]
 ASSUMPTIONS = ["timeout instants avoid exact ties with the run's own event times (x.37 offsets)"]
 
 
@@ -31,7 +31,10 @@ def gen_case(seed):
     from vf import gen
 
     rnd = random.Random(seed)
-    if rnd.random() < 0.6:
+    if rnd.random() < 0.2:
+        spec = gen.gen_busy(rnd)
+        fam = "busy"
+    elif rnd.random() < 0.6:
         spec = gen.gen_det(rnd)
         fam = "det"
     else:
@@ -156,9 +159,14 @@ def check_timeout(case, T, ref, acc):
     kind = oracles.outcome_kind(tr)
     done_at = tr.extra.get("vt_handler_done")
     stop_returned = [r for r in tr.rec.of("emit") if r["how"] == "return" and r["type"] in ("StopEvent", "Done")]
+    if case["family"] == "busy":
+        acc.hit("deadline_inside_blocked_stretch")
+        if any(r["t"] < T - 1e-6 for r in stop_returned) and done_at is not None and done_at > T:
+            acc.hit("stop_returned_before_deadline_loop_regained_after")  # the decisive order
     if kind != "timeout":
         acc.hit("timeout_after_finish")
-        if done_at is not None and done_at > T + 1e-6:
+        # (busy family: the loop is blocked across the deadline, the run cannot end at T; only the finished-first clause is decided there)
+        if done_at is not None and done_at > T + 1e-6 and case["family"] != "busy":
             acc.violation({"mech": "unfinished_run_not_timed_out", "outcome": str(kind)},
                           f"timeout={T} but the run went on until vt={done_at} and ended as {tr.outcome}", wit)
         return
@@ -172,7 +180,7 @@ def check_timeout(case, T, ref, acc):
         acc.violation({"mech": "timeout_terminal_event_wrong"}, f"timed-out run's terminal stream events: {[e['type'] for e in terms]}", wit)
         return
     ev = terms[0]
-    if abs(ev["t"] - T) > 1e-6:
+    if abs(ev["t"] - T) > 1e-6 and case["family"] != "busy":
         acc.violation({"mech": "timeout_at_wrong_instant"}, f"WorkflowTimedOutEvent published at vt={ev['t']}, timeout={T}", wit)
     # active steps: steps with a body in flight at T  <=  active_steps  <=  steps holding an in-progress invocation
     acc.hit("active_steps_eval")
@@ -204,6 +212,11 @@ def run_one(case, acc, only=None):
         return
     acc.sample({"seed": case["seed"], "family": case["family"], "yields": box["n"], "reference_outcome": tr0.outcome, "end": tr0.vt_end})
     rnd = random.Random(case["seed"] ^ 0x31)
+    if case["family"] == "busy":
+        ts = case["spec"]["meta"]["deadlines"] if only is None else ([only["timeout"]] if "timeout" in only else [])
+        for T in ts:
+            check_timeout(case, T, tr0, acc)
+        return
     if only is None or "cancel_at_yield" in only:
         ks = range(box["n"] + 1) if only is None else [only["cancel_at_yield"]]
         for k in ks:
